@@ -18,7 +18,7 @@ import ssl
 
 from .. import env as _env
 from .. import vnet
-from ..world import World, Violation, HarnessError
+from ..world import World, Violation, Monitor, HarnessError
 from ..oracle import tcpclv4 as T
 from ..evidence import enum_evidence
 
@@ -664,10 +664,70 @@ def run_table2(params, known):
     return dict(name=params['name'], evaluations=count, nontrivial_keys=sorted(keys), violations=violations, known=[], samples=samples)
 
 
+def run_agent_level(params, known):
+    """The same policy for contacts made through a `tcpcl.agent.Agent` (connect and accept), which hands its one
+    configuration object to all of them: an agent without TLS of its own (`tls_enable: false`) under each value of
+    `require_tls`, against peers that do not offer TLS either.  With TLS required nothing but the contact header is
+    written and the connection is closed; otherwise the session is established."""
+    import itertools
+    from ..agent_world import AgentWorld
+    violations = []
+    kinds = set()
+    keys = set()
+    count = 0
+
+    def viol(kind, detail, row):
+        if kind in kinds:
+            return
+        kinds.add(kind)
+        v = Violation(PROP, 'tls-policy', kind, dict(), '%r: %s' % (row, detail)).as_dict()
+        v['case'] = row
+        violations.append(v)
+    for (require, contacts, order) in itertools.product((None, False, True), (['out'], ['in'], ['out', 'in']), ('X-first', 'peers-first')):
+        count += 1
+        row = dict(agent_tls_enable=False, require_tls=require, contacts=contacts, order=order)
+        w = AgentWorld(dict(contacts=contacts, x_config=dict(tls_enable=False, require_tls=require)))
+
+        class WireLog(Monitor):
+            name = 'wire-log'
+
+            def __init__(self):
+                self.octets = {}
+
+            def on_wire(self, world, conn, side, data):
+                self.octets[(conn.name, side)] = self.octets.get((conn.name, side), b'') + bytes(data)
+                return ()
+        wire = WireLog()
+        w.monitors.append(wire)
+        names = ['X'] + ['P%d' % i for i in range(len(contacts))]
+        w.run_policy(names if order == 'X-first' else names[1:] + names[:1])
+        keys.add('%r/%s/%s' % (require, '+'.join(contacts), order))
+        if w.sig.escaped:
+            viol('exception-escaped-callback', '%s: %s' % (w.sig.escaped[-1][1], w.sig.escaped[-1][2]), row)
+            continue
+        for (i, kind) in enumerate(contacts):
+            conn = w.conns[i]
+            xside = 0 if kind == 'out' else 1
+            octets = wire.octets.get((conn.name, xside), b'')
+            (msgs, _rest) = T.parse_all(octets, with_contact=True)
+            sent = [m['kind'] for m in msgs]
+            established = any(p == 'X' and m == 'session_state_changed' and a and a[-1] == 'established' for (p, _pa, m, a) in w.sig.log) \
+                or 'SESS_INIT' in sent
+            if require is True:
+                if 'SESS_INIT' in sent:
+                    viol('session-proceeds-against-tls-policy', 'contact %d (%s): the agent requires TLS, has none, and wrote %r in the clear' % (i, kind, sent), row)
+                elif not conn.closed[xside]:
+                    viol('connection-left-open-after-policy-failure', 'contact %d (%s): wrote %r' % (i, kind, sent), row)
+            elif sent.count('SESS_INIT') != 1:
+                viol('session-not-established-although-policy-allows', 'contact %d (%s): wrote %r' % (i, kind, sent), row)
+    return dict(name=params['name'], evaluations=count, nontrivial_keys=sorted(keys), violations=violations, known=[], samples=[])
+
+
 def scenarios(tier):
     out = [dict(name='table1', kind='enum', runner='run_table1', params=dict(name='table1'), weight=5),
            dict(name='config-file', kind='enum', runner='run_config_file', params=dict(name='config-file'), weight=5),
-           dict(name='two-contacts', kind='enum', runner='run_two_contacts', params=dict(name='two-contacts'), weight=5)]
+           dict(name='two-contacts', kind='enum', runner='run_two_contacts', params=dict(name='two-contacts'), weight=5),
+           dict(name='agent-level', kind='enum', runner='run_agent_level', params=dict(name='agent-level'), weight=5)]
     for part in range(8):
         name = 'table2-%d/8' % (part + 1)
         out.append(dict(name=name, kind='enum', runner='run_table2', params=dict(name=name, part=part, parts=8), weight=10))
